@@ -145,4 +145,30 @@ PLoop(s, lhs, d, cx, atoms, min) ==
 \* scimfilter::parse with limit lim: the whole input must be consumed
 PegParse(s, lim, atoms) == LET r == PDepth(s, 1, lim, FALSE, atoms)
                            IN IF r.ok /\ r.n = Len(s) + 1 THEN r.t ELSE Err
+\* ----------------------------- lexical layer: quoted string values -------
+(* Characters are one-character strings.  JsonQuote = how serde_json prints a string value (Display of the filter prints
+   values that way); ScanQuoted = transcription of the peg rule
+       quotedvalue = ['"'] ( (['\\'][_]) / (!['"'][_]) )* ['"']
+   (ordered choice inside a greedy repetition): the position just after the closing quote, 0 if the rule fails.
+   L1: the literal ends at the first quote preceded by an even number of backslashes - so scanning a printed value, whatever
+   follows it, consumes exactly the printed value. *)
+QUOTE == "\""
+BSL == "\\"
+EscChar(c) == IF c = QUOTE THEN <<BSL, QUOTE>> ELSE IF c = BSL THEN <<BSL, BSL>> ELSE IF c = "\t" THEN <<BSL, "t">> ELSE <<c>>
+RECURSIVE EscAll(_, _)
+EscAll(cs, i) == IF i > Len(cs) THEN <<>> ELSE EscChar(cs[i]) \o EscAll(cs, i + 1)
+JsonQuote(cs) == <<QUOTE>> \o EscAll(cs, 1) \o <<QUOTE>>
+\* L1 (declarative): number of backslashes immediately before position p
+RECURSIVE BslRun(_, _)
+BslRun(t, p) == IF p >= 1 /\ t[p] = BSL THEN 1 + BslRun(t, p - 1) ELSE 0
+ClosingQuotes(t) == {p \in 2..Len(t) : t[p] = QUOTE /\ BslRun(t, p - 1) % 2 = 0}
+RefQuotedEnd(t) == IF Len(t) >= 1 /\ t[1] = QUOTE /\ ClosingQuotes(t) # {}
+                   THEN (CHOOSE p \in ClosingQuotes(t) : \A q \in ClosingQuotes(t) : p <= q) + 1 ELSE 0
+\* L2: the peg rule
+RECURSIVE ScanBody(_, _)
+ScanBody(t, p) == IF p > Len(t) THEN 0
+                  ELSE IF t[p] = BSL /\ p + 1 <= Len(t) THEN ScanBody(t, p + 2)
+                  ELSE IF t[p] # QUOTE THEN ScanBody(t, p + 1)
+                  ELSE p + 1
+ScanQuoted(t) == IF Len(t) >= 1 /\ t[1] = QUOTE THEN ScanBody(t, 2) ELSE 0
 =============================================================================
